@@ -40,17 +40,17 @@ READY = False
 BOUNDS = {
     "quick": {
         "A": "all bodies of weight <=3, depth <=3, full alphabet (16 rotating spellings; weight <=2 under all 16); weight 4 over the skeleton alphabet",
-        "B": "9 frames x 7 iterables x 10 loop uses x 5 exits, enable_loop on; the three other modes on 2 frames",
-        "B2": "12 use sites x 2 frames x 2 iterables x modes on/page",
-        "C": "skeletons with <=3 '%' lines: all 4^n indentations x LF/CRLF x '% kw'/'%kw'; 4..6 lines: 16-row cover",
+        "B": "9 frames x 7 iterables x 10 loop uses x 5 exits, enable_loop on; the three other modes on 2 frames; 72 two-deep frame compositions x 1 iterable x 3 uses x 5 exits",
+        "B2": "12 use sites x 2 frames x 2 iterables x 3 for-line comments x modes on/page",
+        "C": "skeletons with <=3 '%' lines: all 4^n indentations x LF/CRLF ('% kw' / '%kw' / '%  kw' rotating); 4..6 lines: 16-row cover x LF/CRLF",
         "D": "block shapes x 4 margins x 5 positions x LF/CRLF",
         "E": "except forms x raised x handler count",
     },
     "thorough": {
         "A": "all bodies of weight <=4, depth <=3, full alphabet (16 rotating spellings; weight <=3 under 4 spellings); weight 5, depth <=5 over the skeleton alphabet",
-        "B": "9 frames x 7 iterables x 10 loop uses x 5 exits x 4 enable_loop modes; 81 two-deep frame compositions, enable_loop on",
-        "B2": "12 use sites x 9 frames x 7 iterables x 4 modes",
-        "C": "skeletons with <=4 '%' lines: all 4^n indentations x LF/CRLF x '% kw'/'%kw'; 5..8 lines: 16-row cover",
+        "B": "9 frames x 7 iterables x 10 loop uses x 5 exits x 4 enable_loop modes; 72 two-deep frame compositions x 7 x 10 x 5, enable_loop on",
+        "B2": "12 use sites x 9 frames x 7 iterables x 3 for-line comments x 4 modes",
+        "C": "skeletons with <=4 '%' lines: all 4^n indentations x LF/CRLF ('% kw' / '%kw' / '%  kw' rotating); 5..8 lines: 16-row cover x LF/CRLF",
         "D": "block shapes x 4 margins x 5 positions x LF/CRLF",
         "E": "except forms x raised x handler count",
     },
@@ -374,7 +374,8 @@ class Checker:
         st.oracles["reference_output" if exp[0] == "ok" else "reference_exception"] += 1
         st.oracles["compiles"] += 1
         good = agree(exp, obs)
-        st.outcomes[(fam, _kind(exp) if good else "DISAGREE")] += 1
+        if not neutralised:
+            st.outcomes[(fam, _kind(exp) if good else "DISAGREE:" + _kind(exp) + "->" + _kind(obs))] += 1
         if st.evaluations % 2503 == 1:
             st.sample({"family": fam, "mode": mode, "template": src, "expected": list(exp)})
         if good:
@@ -389,17 +390,31 @@ class Checker:
             "spelling": sp.describe(),
             "prog": IR.to_json(prog),
         }
-        fps = [] if neutralised else footprints(prog, mode, exp, obs)
+        if neutralised:
+            self.last = (exp, obs)
+            return False
+        # is this an instance of separately signed footprints?  rewrite each offending feature into an
+        # equivalent accepted spelling, one after the other; only if the program then passes is the case
+        # attributed to those footprints - otherwise it is reported under the general signature
+        cur, cexp, cobs = prog, exp, obs
+        applied = []
         explained = False
-        for sig, nprog in fps:
+        for _ in range(5):
+            fps = [f for f in footprints(cur, mode, cexp, cobs) if f[0] not in applied]
+            if not fps:
+                break
+            sig, cur = fps[0]
+            applied.append(sig)
             st.oracles["neutralised_rerun"] += 1
-            nref, nexp = self.expected(nprog, mode, sp.nl)
-            nsrc = IR.mako_source(nprog, sp)
-            if self.one(fam, nprog, mode, sp, nsrc, nref, nexp, steps, neutralised=True):
-                st.violation(sig, case, "reference (CPython) vs Template: " + sig, expected=list(exp), observed=list(obs))
+            nref, cexp = self.expected(cur, mode, sp.nl)
+            if self.one(fam, cur, mode, sp, IR.mako_source(cur, sp), nref, cexp, steps, neutralised=True):
                 explained = True
                 break
-        if not explained:
+            cobs = self.last[1]
+        if explained:
+            for sig in applied:
+                st.violation(sig, case, "reference (CPython) vs Template: " + sig, expected=list(exp), observed=list(obs))
+        else:
             st.violation(
                 general_sig(fam, prog, exp, obs), case, "reference (CPython) vs Template", expected=list(exp), observed=list(obs)
             )
@@ -418,23 +433,29 @@ def family_A(tier, dat):
     w4 = 0 if tier == "quick" else 3
     g = IR.Gen(3, alphabet(dat, True))
     idx = 0
+
+    def full(b, idx, w):
+        prog = IR.finish_program(b, texts)
+        mode = MODES[(idx // 16) % 4]
+        if w <= wall16:
+            sps = [spelling(k) for k in range(16)]
+        elif w <= w4:
+            sps = [spelling((idx + 5 * j) % 16) for j in range(4)]
+        else:
+            sps = [spelling(idx % 16)]
+        return ("A-full", prog, mode, sps)
+
+    def skel(b, idx):
+        return ("A-skel", IR.finish_program(b, texts), MODES[(idx // 16) % 4], [spelling(idx % 16)])
+
     for w in range(0, wfull + 1):
         for b in g.iter_top(w):
-            prog = IR.finish_program(b, texts)
-            mode = MODES[(idx // 16) % 4]
-            if w <= wall16:
-                sps = [spelling(k) for k in range(16)]
-            elif w <= w4:
-                sps = [spelling((idx + 4 * j + j) % 16) for j in range(4)]
-            else:
-                sps = [spelling(idx % 16)]
-            yield ("A-full", prog, mode, sps)
+            yield ("lazy", lambda b=b, idx=idx, w=w: full(b, idx, w))
             idx += 1
     wsk = wfull + 1
     gs = IR.Gen(5, alphabet(dat, False, True))
     for b in gs.iter_top(wsk):
-        prog = IR.finish_program(b, texts)
-        yield ("A-skel", prog, MODES[(idx // 16) % 4], [spelling(idx % 16)])
+        yield ("lazy", lambda b=b, idx=idx: skel(b, idx))
         idx += 1
 
 
@@ -542,13 +563,15 @@ def family_B(tier, dat):
                     for mode in modes:
                         yield ("B-loops", prog, mode, [spelling(sp_i % 16)])
                         sp_i += 1
-    if tier != "quick":
+    if True:
+        its2 = its if tier != "quick" else [i for i in its if i[0] == "three"]
+        uses2 = USES if tier != "quick" else ["index", "parent", "index+after"]
         for f1 in FRAMES:
             for f2 in FRAMES:
                 if f2 == "outer":
                     continue
-                for itr in its:
-                    for use in USES:
+                for itr in its2:
+                    for use in uses2:
                         for ex in EXITS:
                             S = subject(itr, use, ex, inner=(f1 == "outer"))
                             d1, b1 = frame(f1, S, dat, 1)
@@ -621,14 +644,15 @@ def family_B2(tier, dat):
     for name, defs, stmts in use_sites(dat):
         for fr in frames:
             for itr in its:
-                S = (("For", "i", itr[1], (("L", (("e", "i"),)),) + stmts, None, None),)
-                if fr == "outer":
-                    S = (("For", "i", itr[1], (("For", "j", "'xy'", (("L", (("e", "j"),)),) + stmts, None, None),), None, None),)
-                d, b = frame(fr, S, dat)
-                prog = {"defs": defs + d, "body": b, "page": None}
-                for mode in modes:
-                    yield ("B2-sites", prog, mode, [spelling(k % 16)])
-                    k += 1
+                for note in (None, "c", "c: d"):
+                    S = (("For", "i", itr[1], (("L", (("e", "i"),)),) + stmts, None, note),)
+                    if fr == "outer":
+                        S = (("For", "i", itr[1], (("For", "j", "'xy'", (("L", (("e", "j"),)),) + stmts, None, note),), None, None),)
+                    d, b = frame(fr, S, dat)
+                    prog = {"defs": defs + d, "body": b, "page": None}
+                    for mode in modes:
+                        yield ("B2-sites", prog, mode, [spelling(k % 16)])
+                        k += 1
 
 
 # --------------------------------------------------------------------------
@@ -652,6 +676,15 @@ def skeletons(dat, maxlines):
             singles.append(("If", (("q", b1), ("p", b2)), None))
             singles.append(("For", "i", it, b1, b2, None))
             singles.append(("Try", b1 + (("Py", ("raise ValueError('v')",), "inline"),), (("ValueError", b2),)))
+    for note in ("c", "c: d"):
+        n_ = IR.CM + note
+        singles.append(("If", (("p" + n_, (T,)),), None))
+        singles.append(("If", (("q" + n_, (T,)), ("p" + n_, (T,))), None))
+        singles.append(("For", "i", it, (T,), None, note))
+        singles.append(("With", "cm(context, 'm') as v" + n_, (T,)))
+        singles.append(("While", "q" + n_, (T,)))
+        singles.append(("Try", (("Py", ("raise ValueError('v')",), "inline"),), (("ValueError" + n_, (T,)),)))
+        singles.append(("Try", (("Py", ("raise ValueError('v')",), "inline"),), (("ValueError as e" + n_, (T,)),)))
     for b1 in bodies[:2]:
         for b2 in bodies[:2]:
             for b3 in bodies[:2]:
@@ -706,8 +739,7 @@ def family_C(tier, dat):
         if n <= full_n:
             for combo in itertools.product(IR.IND, repeat=n):
                 for nl in ("\n", "\r\n"):
-                    for pct in ("% ", "%"):
-                        sps.append(IR.Spell(nl=nl, ind=list(combo), pct=[pct], m=len(sps)))
+                    sps.append(IR.Spell(nl=nl, ind=list(combo), pct=[("% ", "%", "%  ")[len(sps) % 3]], m=len(sps)))
         else:
             for a, b in cover16():
                 for nl in ("\n", "\r\n"):
@@ -828,7 +860,7 @@ def all_cases(tier, seed):
 # --------------------------------------------------------------------------
 # module contract
 
-NSHARDS = 48
+NSHARDS = 32
 
 
 def plan(tier, seed):
@@ -842,9 +874,12 @@ def run_job(job):
     ck = Checker(st, job["seed"])
     sh, ns = job["shard"], job["nshards"]
     fam_counts = {}
-    for i, (fam, prog, mode, sps) in enumerate(all_cases(job["tier"], job["seed"])):
+    for i, item in enumerate(all_cases(job["tier"], job["seed"])):
         if i % ns != sh:
             continue
+        if item[0] == "lazy":
+            item = item[1]()
+        fam, prog, mode, sps = item
         try:
             ck.case(fam, prog, mode, sps)
         except Exception:  # noqa
